@@ -50,7 +50,7 @@ Theorem wrong_tag_refused env jd n m name t c f : normal (CTag m c) -> m <> n ->
   from_cbor env jd (S f) (TTag n name t) (ser (CTag m c)) = Raise SUITError.
 Proof. exact (Roundtrip.wrong_tag_refused env jd n m name t c f). Qed.
 Print Assumptions wrong_tag_refused.
-(* DESCRIPTION LEVEL, all node classes but the unnamed text maps (suit-text) and the extended digest / encryption-info forms: for every type table, budget, and
+(* DESCRIPTION LEVEL, all node classes but the extended digest / encryption-info forms (which parse never produces): for every type table, budget, and
    every STABLE tree (well-typed; scalars of the right kind; byte strings of real bytes; named tuples whose member names are
    pairwise different, star-free except for a repeated last member "name*" whose prefix starts no other member name; key-value
    nodes with pairwise different member names; and at every union node the alternatives tried before the parsed one reject
